@@ -56,6 +56,13 @@ CHECKS = {
             "every packet size class x compression setting, and both conversation directions.",
             "the reference is derived from the pinned source (where the format is published); lone-surrogate text (no published encoding) is skipped",
             "E5", "DESIGN.md#c19"),
+    "C08": ("model_checking",
+            "exhaustive enumeration of request streams (bounded length) replayed on a real client/server Connection pair with a frame ledger at the transport, plus every malformed request of a menu sent by a reference-codec raw peer",
+            "All streams of <= 3 (quick) / 4 (thorough) requests over 7 handler outcomes x {sync, async} with every placement of result collection; ledger oracle: one response per request with its own "
+            "sequence number in both directions, handlers exactly once, results reach their own requester, unencodable results surface as exceptions, connection usable afterwards. "
+            "Malformed requests (36 shapes x 8 sequence-number shapes, and all ordered pairs) each get exactly one exception response bearing their own sequence number.",
+            "deterministic default schedule (thread interleavings are C13's subject); bounded stream length",
+            "E1+E3+E5", "DESIGN.md#c08"),
 }
 
 NOT_APPLICABLE = {}
